@@ -258,6 +258,16 @@ def f64_is_nan(eng, st, fr, args, fn, site):
     return T('is_nan', x)
 
 
+def opt_copied(eng, st, fr, args, fn, site):
+    """Option<&T>::copied / cloned (for Copy payloads): Some(&x) -> Some(x)"""
+    o = args[0]
+    if o[0] == 'agg' and o[2] == 'None':
+        return ('agg', OPT, 'None', ())
+    if o[0] == 'agg' and o[2] == 'Some' and o[3] and o[3][0][0] == 'ref':
+        return ('agg', OPT, 'Some', (eng.load(st, o[3][0][1]),))
+    return None
+
+
 def nonzero_new(eng, st, fr, args, fn, site):
     """NonZero::<T>::new(x): Some(x) unless x == 0 (the wrapper is transparent: NonZero::get is the identity)"""
     x = args[0]
@@ -884,6 +894,18 @@ def slice_get(eng, st, fr, args, fn, site):
     """<[T]>::get(range) on a buffer whose contents are known: Some(sub-buffer) when the range is inside, None otherwise"""
     r = args[1]
     lo = hi = None
+    # element lookup `TABLE.get(i)` in a small table whose elements are known: Some(&TABLE[k]) for i == k, None beyond the end
+    a0 = ptr_term(args[0])
+    if a0[0] == 'ref' and (is_int_const(r) or r[0] in ('t', 'sym')):
+        arr = eng.load(st, a0[1])
+        if arr[0] == 'agg' and arr[2] is None and 0 < len(arr[3]) <= 8 and (arr[1] == 'array' or arr[1].startswith('[')):
+            n = len(arr[3])
+            elem = lambda k: ('agg', OPT, 'Some', (('ref', (a0[1][0], a0[1][1] + (('f', k, None),))),))
+            if is_int_const(r):
+                return elem(r[1]) if 0 <= r[1] < n else ('agg', OPT, 'None', ())
+            from .psi import index_key
+            key = index_key(r)
+            return [(elem(k), [(key, '==', k)]) for k in range(n)] + [(('agg', OPT, 'None', ()), [(key, '!=', tuple(range(n)))])]
     if r[0] == 'agg' and r[1].split('<')[0].endswith('::RangeTo') and len(r[3]) == 1 and is_int_const(r[3][0]):
         lo, hi = 0, r[3][0][1]
     else:
@@ -1151,6 +1173,8 @@ SUMMARIES = {
     'std::option::Option::<T>::unwrap_or_else': hof(OPT, 'None', _rb_unwrap_or_else('None')),
     'std::result::Result::<T, E>::unwrap_or': unwrap_or(RES),
     'std::option::Option::<T>::unwrap_or': unwrap_or(OPT),
+    'std::option::Option::<&T>::copied': opt_copied,
+    'std::option::Option::<&T>::cloned': opt_copied,
     'std::option::Option::<T>::map': hof(OPT, 'Some', _rb_map_opt, structural=True),
     'std::option::Option::<T>::ok_or_else': hof(OPT, 'None', _rb_ok_or_else, structural=True),
     'std::option::Option::<T>::ok_or': ok_or,
